@@ -426,6 +426,26 @@ def r8_recorder(cx):
     cx.require(len(d) == 1 and U(d[0].value) == "defaultdict(list)", d[0] if d else init, "exceptions is a per-component list table", construct=short(d[0]) if d else "(none)")
 
 
+def r8b_exceptions_hashable(cx, mods):
+    """Broker.add_exception files the traceback under tracebacks[<exception object>]: every exception class of the package must stay hashable.  A class that
+    defines __eq__ without __hash__ is unhashable on Python 3 - the TypeError is then raised inside the handler that was recording the failure."""
+    cx.rule("C03.R8", "Broker.add_exception records failures (list + traceback) and keeps missing requirements apart", floor=3)
+    n = 0
+    for m in mods:
+        for q, c in m.classes():
+            try:
+                is_exc = cx.repo.is_subclass(c, "builtins:Exception") or any(U(b).endswith(("Exception", "Error")) for b in c.bases)
+            except Exception:
+                is_exc = any(U(b).endswith(("Exception", "Error")) for b in c.bases)
+            if not is_exc:
+                continue
+            n += 1
+            names = set(st.name for st in c.body if isinstance(st, FUNC_TYPES)) | set(t.id for st in c.body if isinstance(st, ast.Assign) for t in st.targets if isinstance(t, ast.Name))
+            if "__eq__" in names and "__hash__" not in names:
+                cx.bad(c, "exception class %s stays hashable (it is used as the key of Broker.tracebacks)" % c.name, construct="class %s defines __eq__ without __hash__" % c.name)
+    cx.ok(mods[0].tree.body[0], "%d exception classes swept: none defines __eq__ without __hash__" % n, construct="%d exception classes" % n) if n else None
+
+
 def r9_content_before_skip(cx, mods):
     """ContentException is a subclass of the skip signal but is an *error* that must be recorded: wherever a
     plugin-level try has an arm for SkipComponent, an arm that records ContentException must come first."""
@@ -550,6 +570,10 @@ def run(cx):
     cx.guard(r6_skip_gating, sites)
     cx.guard(r7_registry_mirror)
     cx.guard(r8_recorder)
+    cx.guard(r8b_exceptions_hashable, mods)
+    # a dependent is dropped only when its requirements are really absent (presence, not value, of the group members): C02.R3 re-checked
+    from . import c02
+    cx.borrow(c02.r3_iff, "C02.R3", "C03.R11", "a component unaffected by a failure still finds its requirements met: the missing test is a presence test (C02.R3)")
     cx.guard(r9_content_before_skip, mods)
     cx.guard(r10_alarm_pairing, mods)
     if cx.tier == "thorough":
